@@ -696,3 +696,90 @@ Proof.
   rewrite E in Hal, Hnd. destruct (repeat_nil_same p b bd ds Hbd H Hal Hnd) as [ds' [H1 [H2 _]]].
   exists ds'. split; [exact H1|]. intro s. rewrite H2. reflexivity.
 Qed.
+
+(** ** weights multiply: the multiplicity of a combination is the product of its level weights
+    ([combo_weight]) times the crossing weight times the sustain count *)
+Lemma names_eqb_eq : forall a b, names_eqb a b = true -> a = b.
+Proof.
+  unfold names_eqb. induction a as [|x a IH]; intros [|y b] H; cbn in H; try discriminate; [reflexivity|].
+  apply andb_true_iff in H. destruct H as [H1 H2]. apply String.eqb_eq in H1. subst. f_equal. apply IH. exact H2.
+Qed.
+
+Lemma dict_set_in : forall {V} k (v : V) d k' v',
+  In (k', v') (dict_set names_eqb k v d) -> In (k', v') d \/ (k' = k /\ v' = v).
+Proof.
+  intros V k v d k' v'. induction d as [|[k0 v0] d IH]; cbn; intro H.
+  - destruct H as [H|[]]. inversion H. right. split; reflexivity.
+  - destruct (names_eqb k k0) eqn:E.
+    + destruct H as [H|H]; [|left; right; exact H]. inversion H; subst. apply names_eqb_eq in E. right. split; congruence.
+    + destruct H as [H|H]; [left; left; exact H|]. destruct (IH H) as [H'|H']; [left; right; exact H'|right; exact H'].
+Qed.
+
+Lemma fold_combos_err : forall p cr l (r : res combos), (forall d, r <> Ok d) ->
+  forall d, fold_left (fun acc combo => d <- acc ;; w <- combo_weight p cr combo ;; Ok (dict_set names_eqb combo w d)) l r <> Ok d.
+Proof.
+  intros p cr l. induction l as [|x l IH]; intros r Hr d; cbn [fold_left]; [apply Hr|].
+  apply IH. intros d' E. destruct r as [d0|e|w]; cbn in E; try discriminate. exact (Hr d0 eq_refl).
+Qed.
+
+Lemma fold_combos_weight : forall p cr l d0 d,
+  fold_left (fun acc combo => d <- acc ;; w <- combo_weight p cr combo ;; Ok (dict_set names_eqb combo w d)) l (Ok d0) = Ok d ->
+  (forall k v, In (k, v) d0 -> combo_weight p cr k = Ok v) ->
+  forall k v, In (k, v) d -> combo_weight p cr k = Ok v.
+Proof.
+  intros p cr l. induction l as [|x l IH]; intros d0 d H H0 k v Hin; cbn [fold_left] in H.
+  - inversion H; subst. apply H0. exact Hin.
+  - cbn [bind] in H. destruct (combo_weight p cr x) as [w|e|s] eqn:E; cbn [bind] in H.
+    + eapply IH; [exact H| |exact Hin]. intros k' v' Hin'. apply dict_set_in in Hin'.
+      destruct Hin' as [Hin'|[-> ->]]; [apply H0; exact Hin'|exact E].
+    + exfalso. eapply fold_combos_err; [|exact H]. intros d'; discriminate.
+    + exfalso. eapply fold_combos_err; [|exact H]. intros d'; discriminate.
+Qed.
+
+Theorem all_combos_weight : forall p cr d combo w,
+  all_combos p cr = Ok d -> In (combo, w) d -> combo_weight p cr combo = Ok w.
+Proof.
+  intros p cr d combo w H Hin. unfold all_combos in H. inv_bind H as doms Hd H.
+  eapply fold_combos_weight; [exact H| |exact Hin]. intros k v [].
+Qed.
+
+Lemma in_insert_by : forall {A} (leb : A -> A -> bool) x y l, In y (insert_by leb x l) -> y = x \/ In y l.
+Proof.
+  intros A leb x y l. induction l as [|z l IH]; cbn; intro H.
+  - destruct H as [H|[]]; left; congruence.
+  - destruct (leb z x); cbn in H.
+    + destruct H as [H|H]; [right; left; exact H|]. destruct (IH H) as [H'|H']; [left; exact H'|right; right; exact H'].
+    + destruct H as [H|H]; [left; congruence|right; exact H].
+Qed.
+
+Lemma in_sort_by : forall {A} (leb : A -> A -> bool) l y, In y (sort_by leb l) -> In y l.
+Proof.
+  intros A leb l y. unfold sort_by.
+  assert (G : forall acc, In y (fold_left (fun acc x => insert_by leb x acc) l acc) -> In y acc \/ In y l).
+  { induction l as [|x l IH]; intros acc H; cbn [fold_left] in H; [left; exact H|].
+    destruct (IH _ H) as [H'|H']; [|right; right; exact H'].
+    apply in_insert_by in H'. destruct H' as [->|H']; [right; left; reflexivity|left; exact H']. }
+  intro H. destruct (G [] H) as [[]|H']. exact H'.
+Qed.
+
+Theorem crossing_multiplicity : forall p bd forder maxp c dc idx m,
+  sem_crossing p bd forder maxp c = Ok dc -> In (idx, m) (c_mult dc) ->
+  exists combo w, In (combo, w) (x_combos c) /\ m = w * x_cw c * x_su c.
+Proof.
+  intros p bd forder maxp c dc idx m H Hin. unfold sem_crossing in H. destruct (_ =? 0); [discriminate|].
+  inv_bind H as mult Hm H. inv_bind H as fs Hfs H. inversion H; subst. cbn in Hin.
+  destruct (mapM_in _ _ _ _ Hm Hin) as [[combo w] [Hcw Hx]]. apply in_sort_by in Hcw.
+  inv_bind Hx as idx' Hidx Hx. inversion Hx; subst. exists combo, w. split; [exact Hcw|reflexivity].
+Qed.
+
+(** for a crossing whose every combination is required ([require_complete_crossing]) *)
+Theorem crossing_multiplicity_rcc : forall p d ex cr x bd forder maxp dc idx m,
+  doc_crossing p d ex true cr = Ok x -> sem_crossing p bd forder maxp x = Ok dc -> In (idx, m) (c_mult dc) ->
+  exists combo w, combo_weight p cr combo = Ok w /\ m = w * x_cw x * x_su x.
+Proof.
+  intros p d ex cr x bd forder maxp dc idx m Hx Hdc Hin.
+  destruct (crossing_multiplicity _ _ _ _ _ _ _ _ Hdc Hin) as [combo [w [Hc Hm]]].
+  unfold doc_crossing in Hx. inv_bind Hx as allc Ha Hx. inv_bind Hx as feas Hf Hx. inv_bind Hx as P HP Hx.
+  assert (Ex : x_combos x = allc) by (inversion Hx; reflexivity).
+  rewrite Ex in Hc. exists combo, w. split; [|exact Hm]. eapply all_combos_weight; eauto.
+Qed.
